@@ -40,7 +40,7 @@ func (m LZFMode) String() string {
 func LZFCompress(in []byte) []byte { return LZFCompressMode(in, LZFGreedy) }
 
 const (
-	lzfHashBits = 13
+	lzfHashBits = 12
 	lzfMaxOff   = 1 << 13
 	lzfMaxRef   = 264
 	lzfMaxLit   = 32
@@ -68,10 +68,8 @@ func LZFCompressMode(in []byte, mode LZFMode) []byte {
 		flush(len(in))
 		return out
 	}
+	// positions are stored +1 so that the zero value means "empty"
 	var table [1 << lzfHashBits]int32
-	for i := range table {
-		table[i] = -1
-	}
 	hash := func(i int) uint32 {
 		v := uint32(in[i])<<16 | uint32(in[i+1])<<8 | uint32(in[i+2])
 		return (v * 2654435761) >> (32 - lzfHashBits)
@@ -80,8 +78,8 @@ func LZFCompressMode(in []byte, mode LZFMode) []byte {
 	i := 0
 	for i+2 < len(in) {
 		h := hash(i)
-		ref := int(table[h])
-		table[h] = int32(i)
+		ref := int(table[h]) - 1
+		table[h] = int32(i + 1)
 		if ref >= 0 && i-ref <= lzfMaxOff && in[ref] == in[i] && in[ref+1] == in[i+1] && in[ref+2] == in[i+2] {
 			if mode == LZFShortRefs {
 				maxRef = 3 + (i % 7)
@@ -101,7 +99,7 @@ func LZFCompressMode(in []byte, mode LZFMode) []byte {
 			end := i + l
 			for i++; i < end; i++ {
 				if i+2 < len(in) {
-					table[hash(i)] = int32(i)
+					table[hash(i)] = int32(i + 1)
 				}
 			}
 			litStart = end
